@@ -264,6 +264,7 @@ macro_rules! elem_pair {
 // name: E<size>a<align><d|n>; the W twin is a distinct type of identical layout
 elem_pair!(E0a1d, W0a1d, 0, 1, true);
 elem_pair!(E0a1n, W0a1n, 0, 1, false);
+elem_pair!(E0a8d, W0a8d, 0, 8, true);     // zero-sized, over-aligned (e.g. [u64; 0]): the dangling pointer must be aligned too
 elem_pair!(E1a1d, W1a1d, 1, 1, true);
 elem_pair!(E1a1n, W1a1n, 1, 1, false);
 elem_pair!(E2a2d, W2a2d, 2, 2, true);
